@@ -571,6 +571,8 @@ func redactQueryValues(obj *orderedmap.OrderedMap[string, any], redactFieldNames
 						newObj.Set(redactedKey, v)
 					}
 				}
+			} else {
+				newObj.Set(redactedKey, v)
 			}
 		}
 	}
